@@ -48,7 +48,11 @@ def main():
         model = keras.models.load_model(job["path"], custom_objects=co)
       xs = np.load(job["x"])
       x = [xs["arr_%d" % i] for i in range(len(xs.files))]
-      y = model([tf.constant(c) for c in x]).numpy()
+      xin = [tf.constant(c) for c in x]
+      if job.get("ragged"):
+        from simlat.worlds import builders as _b
+        xin = _b.ragged_inputs(tf, xin)
+      y = model(xin).numpy()
       cfg = modelworld.json_norm(model.get_config())
       meta = []
       for v in model.weights:
